@@ -95,6 +95,11 @@ pub fn run(ctx: &Ctx) -> i32 {
             cfgs: gen::cfgs(&[ALL_MODES, common::NO_ASCII], &[d, ListMask::all()], &both, &[false]),
         },
         Part {
+            name: "ES-F2 macro token sequences",
+            family: gen::es_f_tokens(ctx.tier.pick(4, 5)),
+            cfgs: gen::cfgs(&[ALL_MODES, 1, common::NO_ASCII], &[d, ListMask::single(gen::idx(16, 16))], &both, &both),
+        },
+        Part {
             name: "long macro bodies",
             family: {
                 let mut v = Vec::new();
